@@ -274,7 +274,8 @@ class Prog:
                 groups[path] = g
             return groups[path]
         comps = {}
-        for it in self.items:
+        order = getattr(self, 'add_order', None) or range(len(self.items))
+        for it in [self.items[i] for i in order]:
             if it[0] == 'ivc':
                 _, g, cname, v, oname = it
                 c = om.IndepVarComp()
@@ -313,6 +314,9 @@ class Prog:
                 p.model.add_objective(name, **kw)
             else:
                 p.model.add_constraint(name, **kw)
+        if getattr(self, 'auto_order', False):
+            for g in groups.values():
+                g.options['auto_order'] = True
         if getattr(self, 'pre_setup', None):
             self.pre_setup(p, groups, comps)
         p.setup(**setup_kw)
